@@ -20,6 +20,16 @@ def run_one(pid, tier, repo, quiet=False, out_dir=None):
         mod.run(ck, prog, tier)
         return ck.finish()
     except AnalysisError as exc:
+        if ck.violations:
+            # violations already established stay valid; the analyser merely could not finish the
+            # remaining rules (often because of the very construct that was reported)
+            print('NOTE property=%s analysis stopped early: %s' % (pid, exc))
+            ck.extra['analysis_stopped_early'] = str(exc)
+            ck.floor_failures = []
+            try:
+                return ck.finish()
+            except AnalysisError:
+                pass
         print('ANALYSIS-ERROR property=%s %s' % (pid, exc))
         _error_evidence(ck, str(exc))
         return 2
